@@ -23,6 +23,7 @@ import (
 	"fmt"
 	"sort"
 	"strings"
+	"sync"
 	"testing"
 
 	"github.com/cockroachdb/pebble/internal/base"
@@ -253,6 +254,11 @@ type ipc struct {
 	intra  bool
 }
 
+var (
+	ccMu       sync.Mutex
+	ccExamples []string
+)
+
 type errLogger struct{ errs []string }
 
 func (l *errLogger) Infof(format string, args ...interface{})  {}
@@ -285,6 +291,7 @@ type runner struct {
 
 	evals, trans int
 	ccOK, ccErr  int64
+	ccUnflushed  int64
 	menus        [16]*menuState
 	outcomes     map[string]int64
 	nontrivial   bool
@@ -671,7 +678,9 @@ func (r *runner) maxStack(mask uint32) int {
 }
 
 // checkPick is the independent oracle: it simulates executing the picked compaction on the model.
-func (r *runner) checkPick(pfx string, intra bool, lcf *manifest.L0CompactionFiles, depth int, eusn uint64, menu []baseFile, inprog []ipc) {
+// prev != 0: lcf is the result of extending the already checked pick prev; only what the extension added
+// is judged (problems of prev itself have been reported under their own class).
+func (r *runner) checkPick(pfx string, intra bool, lcf *manifest.L0CompactionFiles, depth int, eusn uint64, menu []baseFile, inprog []ipc, prev uint32) {
 	mask := lcfMask(lcf)
 	if len(lcf.Files) == 0 {
 		r.viol(pfx+"empty-pick", "a non-nil pick has no files")
@@ -693,8 +702,18 @@ func (r *runner) checkPick(pfx string, intra bool, lcf *manifest.L0CompactionFil
 		if p.high > outHigh {
 			outHigh = p.high
 		}
+		if prev&(1<<uint(p.idx)) != 0 {
+			continue
+		}
 		if p.mark != 0 || p.meta.IsCompacting() {
-			r.viol(pfx+"picked-compacting-file", fmt.Sprintf("pick %s includes %s which is already compacting", r.maskStr(mask), p))
+			if !intra && p.mark == 2 {
+				// own class (no prefix): baseCompactionUsingSeed stacks the files of the seed interval
+				// without looking at their compaction state; only files of LOWER sublevels go through
+				// extendFiles, which does look.
+				r.viol("base-pick-includes-intra-compacting-file", fmt.Sprintf("%sbase pick %s includes %s which is already compacting (intra-L0)", pfx, r.maskStr(mask), p))
+			} else {
+				r.viol(pfx+"picked-compacting-file", fmt.Sprintf("pick %s includes %s which is already compacting", r.maskStr(mask), p))
+			}
 		}
 		if intra && p.high >= eusn {
 			r.viol(pfx+"intra-picked-unflushed-seqnum", fmt.Sprintf("pick %s with earliestUnflushedSeqNum=%d includes %s", r.maskStr(mask), eusn, p))
@@ -708,7 +727,7 @@ func (r *runner) checkPick(pfx string, intra bool, lcf *manifest.L0CompactionFil
 			}
 		}
 	}
-	if depth > 0 && r.maxStack(mask) < depth {
+	if depth > 0 && prev == 0 && r.maxStack(mask) < depth {
 		r.viol(pfx+"pick-below-min-depth", fmt.Sprintf("pick %s stacks fewer than minCompactionDepth=%d files on every key", r.maskStr(mask), depth))
 	}
 	proper := false
@@ -721,6 +740,9 @@ func (r *runner) checkPick(pfx string, intra bool, lcf *manifest.L0CompactionFil
 				continue
 			}
 			proper = true
+			if prev&(1<<uint(p.idx)) != 0 {
+				continue
+			}
 			if !intra {
 				// p's data moves below all of L0: every L0 file that stays and overlaps p must be newer.
 				if g.older(p) {
@@ -741,16 +763,28 @@ func (r *runner) checkPick(pfx string, intra bool, lcf *manifest.L0CompactionFil
 	}
 	if !intra {
 		lo, hi := r.hull(mask)
+		plo, phi := r.hull(prev)
 		for _, b := range menu {
-			if b.compacting && overlap(lo, hi, b.x, b.y) {
+			if b.compacting && overlap(lo, hi, b.x, b.y) && !(prev != 0 && overlap(plo, phi, b.x, b.y)) {
 				r.viol(pfx+"base-pick-overlaps-compacting-lbase", fmt.Sprintf("pick %s [%s,%s] overlaps Lbase file [%s,%s] which is compacting",
 					r.maskStr(mask), keyBytes[lo], keyBytes[hi], keyBytes[b.x], keyBytes[b.y]))
 			}
 		}
 	}
 	if err := r.o.VerifCheckCompaction(lcf); err != nil {
-		r.ccErr++
 		r.logf("pebble checkCompaction: %v", err)
+		if intra && eusn <= r.files[len(r.files)-1].high {
+			// the helper rejects any candidate whose key range also holds a file at/above the
+			// threshold, picked or not; not informative
+			r.ccUnflushed++
+			return
+		}
+		r.ccErr++
+		ccMu.Lock()
+		if len(ccExamples) < 6 && r.nViol == 0 {
+			ccExamples = append(ccExamples, fmt.Sprintf("L0={%s} marks=%v %s%s pick %s", r.describeFiles(), r.marks, pfx, r.stage, r.maskStr(mask)))
+		}
+		ccMu.Unlock()
 	} else {
 		r.ccOK++
 	}
@@ -837,7 +871,7 @@ func (r *runner) startAndRepick(intra bool, lcf *manifest.L0CompactionFiles, ms 
 	inprog2 := append(append([]ipc{}, inprog...), ipc{lo, hi, intra})
 	if nb := r.pickBase(r.o, 1, ms.slice); nb != nil {
 		r.logf("   next base pick %s", r.maskStr(lcfMask(nb)))
-		r.checkPick("next-", false, nb, 1, 0, menu, inprog2)
+		r.checkPick("next-", false, nb, 1, 0, menu, inprog2, 0)
 		r.out("next-base:picked")
 	} else {
 		r.out("next-base:nil")
@@ -847,7 +881,7 @@ func (r *runner) startAndRepick(intra bool, lcf *manifest.L0CompactionFiles, ms 
 	r.trans++
 	if ni != nil {
 		r.logf("   next intra pick %s", r.maskStr(lcfMask(ni)))
-		r.checkPick("next-", true, ni, 1, maxSeq, menu, inprog2)
+		r.checkPick("next-", true, ni, 1, maxSeq, menu, inprog2, 0)
 		r.out("next-intra:picked")
 	} else {
 		r.out("next-intra:nil")
@@ -908,8 +942,9 @@ func (r *runner) checkBasePicks(mi int) {
 		}
 		r.out("base:picked")
 		before := lcfMask(lcf)
+		v0 := r.nViol
 		r.logf("base pick depth %d: %s", depth, r.maskStr(before))
-		r.checkPick("", false, lcf, depth, 0, ms.files, inprog)
+		r.checkPick("", false, lcf, depth, 0, ms.files, inprog, 0)
 
 		// ExtendL0ForBaseCompactionTo, the way pickedTableCompaction.maybeGrowL0ForBase calls it: the
 		// exclusive limits are the neighbours of the overlapped Lbase files. With no overlapped Lbase
@@ -932,6 +967,15 @@ func (r *runner) checkBasePicks(mi int) {
 			if last < len(ms.files)-1 {
 				largest = ms.metas[last+1].Smallest()
 			}
+		} else if len(ms.files) > 0 {
+			// Lbase is not empty but nothing is overlapped: the DB does not extend (it hopes for a move
+			// compaction) and unbounded limits would be wrong, they could reach other Lbase files.
+			r.out("extend:not-called-no-lbase-overlap")
+			if !started[before] && r.nViol == v0 {
+				started[before] = true
+				r.startAndRepick(false, lcf, ms, inprog)
+			}
+			continue
 		}
 		r.stExtra = " + ExtendL0ForBaseCompactionTo(" + limitStr(smallest) + "," + limitStr(largest) + ")"
 		grew := r.o.ExtendL0ForBaseCompactionTo(smallest, largest, lcf)
@@ -956,7 +1000,7 @@ func (r *runner) checkBasePicks(mi int) {
 		} else {
 			r.out("extend:same")
 		}
-		r.checkPick("extended-", false, lcf, depth, 0, ms.files, inprog)
+		r.checkPick("extended-", false, lcf, depth, 0, ms.files, inprog, before)
 		// the extension must not touch further Lbase files
 		lo2, hi2 := r.hull(after)
 		for i, b := range ms.files {
@@ -965,7 +1009,8 @@ func (r *runner) checkBasePicks(mi int) {
 					r.maskStr(before), r.maskStr(after), keyBytes[b.x], keyBytes[b.y]))
 			}
 		}
-		if !started[after] {
+		if !started[after] && r.nViol == v0 {
+			// (a pick that is already wrong is not started)
 			started[after] = true
 			r.startAndRepick(false, lcf, ms, inprog)
 		}
@@ -1020,8 +1065,9 @@ func (r *runner) checkIntraPicks() {
 			if !lcf.VerifIsIntraL0() {
 				r.viol("intra-pick-kind", "PickIntraL0Compaction returned a candidate not flagged intra-L0")
 			}
-			r.checkPick("", true, lcf, depth, t, nil, inprog)
-			if m := lcfMask(lcf); !started[m] {
+			v0 := r.nViol
+			r.checkPick("", true, lcf, depth, t, nil, inprog, 0)
+			if m := lcfMask(lcf); !started[m] && r.nViol == v0 {
 				started[m] = true
 				r.startAndRepick(true, lcf, ms, inprog)
 			}
@@ -1090,6 +1136,9 @@ func runFiles(c *vlib.Ctx, specs []FileSpec, only *Case, verbose bool) *runner {
 		c.OutcomeN(k, n)
 	}
 	c.OutcomeN("pebble-checkCompaction-on-pick:ok", r.ccOK)
+	if r.ccUnflushed > 0 {
+		c.OutcomeN("pebble-checkCompaction-on-pick:error-because-of-unflushed-threshold", r.ccUnflushed)
+	}
 	if r.ccErr > 0 {
 		c.OutcomeN("pebble-checkCompaction-on-pick:error", r.ccErr)
 	}
@@ -1143,6 +1192,9 @@ func TestCheck(t *testing.T) {
 		})
 		if !complete {
 			c.Incomplete(fmt.Sprintf("budget expired after %d of %d file sets (sets are ordered by size; all smaller sizes complete)", done, len(layouts)))
+		}
+		if len(ccExamples) > 0 {
+			c.Note("pebble_checkCompaction_disagreements", ccExamples)
 		}
 		c.Note("scope", fmt.Sprintf("file sets of <=%d L0 files: %d legal layouts (by size %v, %d with nested seqnum ranges); per layout: all 2^(k-1) batch splits + all k! insertion orders; all 3^k markings (base markings downward closed) x %d Lbase menus x min depths; intra-L0 thresholds: all legal",
 			maxK, len(layouts), perK, nested, len(baseMenus)))
